@@ -123,6 +123,7 @@ def ref_case(draw):
         "variants": [draw(st.sampled_from(range(len(VARIANTS)))) for _ in seq],
         "repeat_desc": draw(st.lists(st.integers(0, 6), max_size=2)),
         "repeat_header": draw(st.lists(st.integers(0, 6), max_size=1)),
+        "bin_names": draw(st.sampled_from([False, False, False, True])),
     }
 
 
@@ -131,6 +132,11 @@ def _all_names(models):
     for m in models:
         refcodec.model_descriptors(m, out)
     return out
+
+
+def _has_nested(m):
+    return any(isinstance(x, tuple) and x and (x[0] in ("record", "grouped") or (x[0] == "list" and any(
+        isinstance(e, tuple) and e and e[0] in ("record", "grouped") for e in x[1]))) for x in m[3])
 
 
 def check_ref_to_impl(case, ctx):
@@ -155,7 +161,11 @@ def check_ref_to_impl(case, ctx):
         ctx.cls("variant:%s" % v)
     if case["widths"] != [0]:
         ctx.cls("widths:non-minimal")
-    data = refcodec.encode_stream(exp, case["widths"], variants, set(case["repeat_desc"]), set(case["repeat_header"]))
+    bin_names = bool(case.get("bin_names")) and not any(m[0] == "grouped" or _has_nested(m) for m in exp)
+    if bin_names:
+        ctx.cls("variant:names-as-bin")
+    data = refcodec.encode_stream(exp, case["widths"], variants, set(case["repeat_desc"]), set(case["repeat_header"]),
+                                  bin_names)
     # self-check of the harness: the reference decoder must accept what the reference encoder wrote
     # (only for variant-free streams, the strict decoder models writer output)
     if records:
